@@ -341,7 +341,7 @@ def _holds(b, env, memo, slack):
     raise AssertionError(op)
 
 
-def float_counterexample(hyps, goal, tries=16):
+def float_counterexample(hyps, goal, tries=None):
     """candidate counterexample by floating-point evaluation when algebraic / transcendental atoms (sqrt, exp, cos, ...) rule out exact sampling: every
     hypothesis must hold with a margin and the goal must fail with a margin.  The caller replays the assignment on the float build before anything is
     reported, so a spurious candidate ends as NOT-REPRODUCED, never as a violation."""
@@ -352,6 +352,10 @@ def float_counterexample(hyps, goal, tries=16):
         X.variables(n, vs, seen)
     if not vs or len(vs) > 400:
         return None
+    if tries is None:
+        # many tries only where exact sampling is impossible (algebraic / uninterpreted atoms present); elsewhere this stage is a cheap extra look before z3
+        special = any(isinstance(X._nodes[i], X.E) and X._nodes[i].op in ("sqrt", "uf") for i in seen)
+        tries = 800 if special else 16
     rng = random.Random(4321)
     for t in range(tries):
         env = {}
@@ -360,8 +364,11 @@ def float_counterexample(hyps, goal, tries=16):
                 env[name] = rng.random() < 0.5
             elif v.sort == "I":
                 env[name] = rng.randint(-2, 3)
-            else:
+            elif t < 16:
                 env[name] = round(rng.uniform(0.2, 1.5) * rng.choice((1, 1, -1)), 3)
+            else:
+                # magnitudes spread over many decades: step controllers compare fractional powers of ratios with fixed thresholds, which values of order one never cross
+                env[name] = float("%.3g" % (10.0 ** rng.uniform(-6, 2))) * rng.choice((1, 1, 1, 1, 1, 1, 1, -1))
         memo = {}
         try:
             if not all(_holds(h, env, memo, -1e-7 if h.op in ("le0", "lt0") else 1e-12) for h in hyps):
